@@ -6,7 +6,7 @@ From Coq Require Import List NArith ZArith Bool Permutation.
 Import ListNotations.
 Require Import MV.Common.Interleave MV.C10.Model MV.C10.Spec MV.C10.Exec
                MV.C10.ProofsConc MV.C10.ProofsConc2 MV.C10.ProofsSeq MV.C10.ExecProofs
-               MV.C10.ProofsBound MV.C10.ProofsRefine MV.C10.ProofsWire MV.C10.ProofsSound.
+               MV.C10.ProofsBound MV.C10.ProofsRefine MV.C10.ProofsWire MV.C10.ProofsSound MV.C10.ProofsSuffix.
 Open Scope N_scope.
 
 (* counters driven only by increments, any number of updating and flushing threads, every schedule,
@@ -203,3 +203,19 @@ Theorem C10_wire_stream_decodes : forall fs,
   Forall (fun b => W.len b < 4294967296) fs ->
   split_frames (length fs) (concat (map (MV.C09.Inv.frame true) fs)) = fs.
 Proof. exact stream_decodes. Qed.
+
+(* ---------------------------------------------------------------- round 3 *)
+
+(* idle-once, suffix form, every schedule: from ANY configuration in which no thread updates the
+   counter any more ([Pre]: every thread other than f only writes/flushes the gauge; the single
+   flushing thread f has no counter update left and is between two counter flushes; `last`,
+   `updates`, the idle flag arbitrary): either the first flush has not completed and nothing was
+   sent, or the configuration became quiescent after at most one catch-up delta, and from there at
+   most one zero was sent (none if idle) - and nothing afterwards *)
+Theorem C10_idle_once_suffix : forall fx f c0 s0 c sched,
+  Pre f c0 s0 c ->
+  let c' := fst (exec (step fx) site c sched) in
+  (Pre f c0 s0 c' /\ sent (fst c') = s0) \/
+  exists s1 i1, (s1 = s0 \/ exists d, s1 = d :: s0) /\ Qinv c0 s1 i1 c' /\
+                (sent (fst c') = s1 \/ (i1 = false /\ sent (fst c') = 0 :: s1)).
+Proof. exact idle_once_suffix. Qed.
